@@ -16,7 +16,7 @@ import (
 
 func init() {
 	vc.Register(&vc.Check{ID: "C11", Level: "fault_enumeration", Run: run, Replay: replay, QuickSec: 170, ThoroSec: 2400,
-		Rule: "for each chip configuration the fault-free read is run and its N exchanges numbered; then for EVERY exchange index k in [0,N) and EVERY fault kind of the 16-entry menu (bare 6A82, bare 6283, empty, first byte only, last byte dropped, first half, data bit flipped, SW bit flipped, 1 byte appended, 300 bytes appended, SW:=6A82/6982/6700/6300, bare 9000, previous response replayed) one complete execution of the real Reader.ReadDocument against the independent chip (D=1: N x 16 per configuration); thorough adds D=2 (all ordered pairs of faults) on the smallest configuration, which replaces 'random multi-fault sequences' by an exhaustive bound. Horizon: more than 20 N exchanges = livelock. Oracle from the chip's own truth: no panic escapes; every file returned is byte-identical to the chip's; no protocol reported successful that the chip did not complete; DataTrusted only if issuer trusted and all returned files genuine; a faulted read (fault on a protected exchange) that reports neither an error nor a failed step must be indistinguishable from the fault-free read (no silent degradation). distinct_nontrivial = distinct (configuration, k, fault kind, outcome signature)",
+		Rule: "for each chip configuration the fault-free read is run and its N exchanges numbered; then for EVERY exchange index k in [0,N) and EVERY fault kind of the 16-entry menu (bare 6A82, bare 6283, empty, first byte only, last byte dropped, first half, data bit flipped, SW bit flipped, 1 byte appended, 300 bytes appended, SW:=6A82/6982/6700/6300, bare 9000, previous response replayed) one complete execution of the real Reader.ReadDocument against the independent chip (D=1: N x 16 per configuration); D=2 = all ordered pairs of faults (quick: 4 session-continuing kinds on the smallest configuration; thorough: all 16 x 16 kinds on three configurations), which replaces 'random multi-fault sequences' by an exhaustive bound. Horizon: more than 20 N exchanges = livelock. Oracle from the chip's own truth: no panic escapes; every file returned is byte-identical to the chip's; no protocol reported successful that the chip did not complete; DataTrusted only if issuer trusted and all returned files genuine; a faulted read (fault on a protected exchange) that reports neither an error nor a failed step must be indistinguishable from the fault-free read (no silent degradation). distinct_nontrivial = distinct (configuration, k, fault kind, outcome signature)",
 		Assume: []string{"content corruption of the plaintext EF.CardAccess read (before any session exists) is undetectable by any implementation; byte-identity of CardAccess is therefore not asserted for faults on unprotected exchanges", "faults are applied to the response bytes on the wire; the chip itself behaves conformingly"}})
 }
 
@@ -329,25 +329,30 @@ d2:
 	c.SecBound(sec1, fmt.Sprintf("%d configurations, exchanges per fault-free read %v, 16 fault kinds", len(cfgs), ns))
 	c.Extra("fault_free_exchanges", ns)
 	// D = 2 on the smallest configuration
-	sec2 := "D=2: all ordered pairs of faults on the smallest configuration"
-	small := cfgs[0]
-	n := ns[small.Name]
-	baseSmall := runCase(small, nil, 400)
+	sec2 := "D=2: all ordered pairs of faults"
+	d2cfgs := cfgs[:1]
 	kinds2 := faultKinds
 	if c.Quick() {
-		// quick: pairs restricted to 4 fault kinds that continue the session (bare status / SW changes)
+		// quick: one configuration, pairs restricted to 4 fault kinds that continue the session (bare status / SW changes)
 		kinds2 = []string{"bare-9000", "sw:=6A82", "previous-response", "last-byte-dropped"}
+	} else {
+		d2cfgs = cfgs[:3]
 	}
-	c.SecBound(sec2, fmt.Sprintf("%s: %d exchanges, all pairs k1<k2 x %d x %d fault kinds", small.Name, n, len(kinds2), len(kinds2)))
-	if n >= 10 {
+	c.SecBound(sec2, fmt.Sprintf("%d configuration(s): all pairs k1<k2 (k2 up to N+2) x %d x %d fault kinds", len(d2cfgs), len(kinds2), len(kinds2)))
+	for _, small := range d2cfgs {
+		n := ns[small.Name]
+		if n < 10 {
+			continue
+		}
+		baseSmall := runCase(small, nil, 400)
 		for k1 := 0; k1 < n; k1++ {
 			for k2 := k1 + 1; k2 < n+3; k2++ {
 				if !c.Mine() {
 					continue
 				}
 				if c.Expired() {
-					c.SecNotExhaustive(sec2, fmt.Sprintf("deadline at k1=%d", k1))
-					return
+					c.SecNotExhaustive(sec2, fmt.Sprintf("deadline in %s at k1=%d", small.Name, k1))
+					goto samples
 				}
 				for _, a := range kinds2 {
 					for _, b := range kinds2 {
@@ -355,7 +360,8 @@ d2:
 						r := judgeCase(small, fs, n, baseSmall.Complete)
 						if r.Key != "" {
 							rec := caseRec{small.Name, fs, n}
-							c.Violation(sec2, r.Key, fmt.Sprintf("%s, faults %v: %s", small.Name, fs, r.What), rec, func() bool { return judgeCase(small, fs, n, baseSmall.Complete).Key != "" })
+							sm := small
+							c.Violation(sec2, r.Key, fmt.Sprintf("%s, faults %v: %s", small.Name, fs, r.What), rec, func() bool { return judgeCase(sm, fs, n, baseSmall.Complete).Key != "" })
 							c.Outcome(sec2, "VIOLATION")
 						} else {
 							c.Outcome(sec2, r.Sig)
@@ -365,6 +371,7 @@ d2:
 			}
 		}
 	}
+samples:
 	if c.Shard == 0 {
 		c.Sample(caseRec{cfgs[1].Name, []fault{{17, "sw:=6982"}}, ns[cfgs[1].Name]})
 		c.Sample(caseRec{cfgs[0].Name, []fault{{3, "bare-9000"}, {4, "previous-response"}}, ns[cfgs[0].Name]})
